@@ -383,7 +383,26 @@ def _c08_stack_exhaustion():
     return None
 
 
+def _c09_instance_attribute_kept():
+    from DocumentTemplate import HTML
+
+    class Doc:
+        pass
+    d = Doc()
+    d.p = 1
+
+    def un():
+        d.p = 0
+    src = '<dtml-if p>P<dtml-else>D</dtml-if><dtml-call un><dtml-if p>P<dtml-else>D</dtml-if>'
+    out = HTML(src)(d, un=un)
+    if out != 'PD':
+        return {'input': "d.p = 1; un() sets d.p = 0; HTML(%r)(d, un=un)  (an attribute of the client object rebound to a false "
+                         "value between two conditionals)" % src, 'got': out, 'expected': 'PD'}
+    return None
+
+
 PROBES = {
+    'C09': [('C09-instance-attribute-kept', _c09_instance_attribute_kept)],
     'C04': [('C04-requote-list-format', _c04_requote_list_format)],
     'C17': [('C17-getstate-while-first-render', _c17_getstate_while_first_render)],
     'C08': [('C08-interpreter-stack-exhaustion-cleanup', _c08_stack_exhaustion)],
